@@ -979,27 +979,23 @@ package query
 // the record set is regrown once, with a capacity estimated from the bytes read so far; the estimate must not fall
 // below the 300 rows already read (machine arithmetic assumed: a ratio above 1 scaled by 300 and 1.2 is above 300)
 //@ axiom regrow_estimate_above_prepared_cap: forallv(a, int64, forallv(b, int, 0 < b && b < a ==> int(float64(a) / float64(b) * 300.0 * 1.2) >= 300))
-// C13: the two loader goroutines share the size estimate pos only through sync/atomic (plain loads and stores of captured
-// integer variables must hit variables of their own); rows travel through the channel. (pos used to be a plain int written
+// C13: the two loader goroutines share the size estimate pos only through sync/atomic (no plain load or store of a
+// loader goroutine touches the cell of pos); rows travel through the channel. (pos used to be a plain int written
 // by the reader while the builder read it: fix 5747565.) The error slot err is handed over by close(rowch) / panicCh
 // (channel happens-before), which this engine does not model: assumed.
 //@ func readRecordSet$1
 //@   property C19 C13
 //@   safety
-//@   ownreads C:int#0 C:int64#0
-//@   ownwrites C:int#0 C:int64#0
+//@   atomiconly pos
 //@ func readRecordSet$2
 //@   property C13
-//@   ownreads C:int#0 C:int64#0
-//@   ownwrites C:int#0 C:int64#0
+//@   atomiconly pos
 //@ func loadViewFromJsonLinesFile$1
 //@   property C13
-//@   ownreads C:int#0 C:int64#0
-//@   ownwrites C:int#0 C:int64#0
+//@   atomiconly pos
 //@ func loadViewFromJsonLinesFile$2
 //@   property C13
-//@   ownreads C:int#0 C:int64#0
-//@   ownwrites C:int#0 C:int64#0
+//@   atomiconly pos
 
 // ---------------------------------------------------------------------------------------------
 // C04 / C12: GROUP BY assembles each bucket from the per-worker member lists in worker order: the bucket of a key
